@@ -707,12 +707,6 @@ struct Runner {
 #endif
 		if (state == NOID && kind == ACT_SUCCEED_SELF) kind = ACT_SUCCEED_ID;  // the head has no own id (asserted precondition)
 		if (state == NOID && kind == ACT_FAIL_SELF) kind = ACT_FAIL_ID;
-		if constexpr (fl == CTL_GUARD) {
-			// a veto of a *redirected* request during activation is flagged by the library (FFSM2_BREAK): out of contract
-			if (kind == ACT_CANCEL && W.activating && static_cast<bool>(control.pendingTransition())) {
-				kind = ACT_NONE; ++W.tr->excludedVeto; note(NOTE_EXCLUDED_ACTIVATION_VETO);
-			}
-		}
 		if (kind == ACT_NONE) { if (((act.kind & ACT_KIND_MASK) % ACT_COUNT) != ACT_NONE) ++W.tr->normalised; return; }
 		Ev& a = pushEv(EV_ACT);
 		a.state = state; a.method = kind; a.d = method;
